@@ -422,7 +422,7 @@ pub fn cont_history(rng: &mut Rng, fl: &str, id: &str, nkeys: usize, ncalls: usi
         } else if r < 94 {
             l.push(format!("g.to_dot {gs}"));
         } else {
-            l.push(format!("g.to_dot_attr {gs} {}", rng.below(3)));
+            l.push(format!("g.to_dot_attr {gs} {}", rng.below(4)));
         }
     }
     l.push("dump".into());
